@@ -418,6 +418,9 @@ func (e *FnEnc) epochName(h Heap, key string) string {
 		if e.R.heapDecl[key] == "Bool" {
 			return "false"
 		}
+		if strings.HasPrefix(key, "ghost!cnt!") {
+			return bvLit(0, 64)
+		}
 		name := key + "!unset"
 		if e.epochDeclared == nil {
 			e.epochDeclared = map[string]bool{}
@@ -1282,6 +1285,9 @@ func (f *frame) loopHead(li *loopInfo) {
 		}
 		f.curHeap[key] = e.declare(e.fresh(key), sortS)
 	}
+	// ghost state of "calls" clauses: an event that can happen in the loop may have happened
+	// any number of times before this iteration
+	f.havocLoopGhosts(li)
 	for _, ks := range keepKeys {
 		if v, ok := preHavoc[ks[0]]; ok && !strings.HasPrefix(v, "?") {
 			f.curHeap[ks[0]] = v
@@ -1433,6 +1439,97 @@ func (f *frame) pureCalleeKey(key string) bool {
 }
 
 // loopWrites: heap keys possibly written inside the loop ("*" = everything).
+// havocLoopGhosts: at the head of a loop, the flag of every calls clause whose callee can be
+// called in the loop (directly, or through a callee taken inline) may already be set, and its
+// recorded result may be that of any earlier matching call.
+func (f *frame) havocLoopGhosts(li *loopInfo) {
+	e := f.enc
+	top := e.top
+	if top == nil || top.contract == nil || len(top.contract.Calls) == 0 {
+		return
+	}
+	names := map[string]bool{}
+	var scan func(fn *ssa.Function, only map[int]bool, depth int)
+	scan = func(fn *ssa.Function, only map[int]bool, depth int) {
+		if depth > 6 {
+			names["*"] = true
+			return
+		}
+		for _, b := range fn.Blocks {
+			if only != nil && !only[b.Index] {
+				continue
+			}
+			for _, in := range b.Instrs {
+				if mc, ok := in.(*ssa.MakeClosure); ok {
+					if cf, ok := mc.Fn.(*ssa.Function); ok {
+						scan(cf, nil, depth+1)
+					}
+					continue
+				}
+				ci, ok := in.(ssa.CallInstruction)
+				if !ok {
+					continue
+				}
+				c := ci.Common()
+				if _, isB := c.Value.(*ssa.Builtin); isB {
+					continue
+				}
+				if c.IsInvoke() {
+					if n, ok := c.Value.Type().(*types.Named); ok && n.Obj().Pkg() != nil {
+						names[n.Obj().Pkg().Name()+"."+n.Obj().Name()+"."+c.Method.Name()] = true
+					}
+					continue
+				}
+				callee := c.StaticCallee()
+				if callee == nil {
+					names["*"] = true // a function value: its body may be taken inline
+					continue
+				}
+				names[funcKey(callee)] = true
+				if callee.Pkg != nil {
+					pkg := callee.Pkg.Pkg.Path()
+					n := pkg + "." + callee.Name()
+					if recv := callee.Signature.Recv(); recv != nil {
+						n = pkg + ".(" + typeName(recv.Type()) + ")." + callee.Name()
+					}
+					names[n] = true
+				}
+				if fc := e.E.CS.Funcs[funcKey(callee)]; (fc != nil && fc.Inline) || callee.Parent() != nil {
+					scan(callee, nil, depth+1)
+				}
+			}
+		}
+	}
+	scan(f.fn, li.blocks, 0)
+	for k, cs := range top.contract.Calls {
+		if !names["*"] && !names[cs.Callee] {
+			continue
+		}
+		gk := ghostCallKey(k)
+		cur, ok := f.curHeap[gk]
+		if !ok {
+			cur = "false"
+		}
+		f.curHeap[gk] = e.define(e.fresh(gk), "Bool", or(cur, e.declare(e.fresh(gk+"!loop"), "Bool")))
+		if cs.As != "" {
+			ck := ghostCntKey(k)
+			e.R.heapDecl[ck] = "(_ BitVec 64)"
+			cnt, ok := f.curHeap[ck]
+			if !ok {
+				cnt = bvLit(0, 64)
+			}
+			n := e.declare(e.fresh(ck+"!loop"), "(_ BitVec 64)")
+			f.assume(fmt.Sprintf("(bvsge %s %s)", n, cnt))
+			f.curHeap[ck] = n
+		}
+		for hk, sortS := range e.R.heapDecl {
+			if hk == ghostRetKey(k) || strings.HasPrefix(hk, ghostRetKey(k)+"!") {
+				f.curHeap[hk] = e.declare(e.fresh(hk+"!loop"), sortS)
+			}
+		}
+	}
+}
+
 func (f *frame) loopWrites(li *loopInfo) []string {
 	set := map[string]bool{}
 	for _, b := range f.fn.Blocks {
